@@ -91,7 +91,13 @@ def run_plan(res, queries, workers=8, mem_budget_gb=56, logdir=None):
         lanes.put(i)
     results = []
 
+    stop = {"flag": False}
+    early = os.environ.get("VERIF_STOP_ON_VIOLATION") == "1"
+
     def work(q):
+        if stop["flag"]:
+            res.notrun.append(q.harness + " (skipped: a violation was already confirmed and VERIF_STOP_ON_VIOLATION=1)")
+            return
         with cv:
             while state["mem"] + q.mem_gb > mem_budget_gb and state["mem"] > 0:
                 cv.wait()
@@ -106,6 +112,14 @@ def run_plan(res, queries, workers=8, mem_budget_gb=56, logdir=None):
             with cv:
                 state["mem"] -= q.mem_gb
                 cv.notify_all()
+        if early and r.get("status") == "fail":
+            with lock:
+                handle_result(res, r)
+                r["_handled"] = True
+                if res.violations:
+                    stop["flag"] = True
+                    # stop the queries still running: their verdict is no longer needed
+                    subprocess.run("pgrep -x cbmc | xargs -r kill", shell=True)
         with lock:
             results.append(r)
         sys.stderr.write("[%s] %-40s %-12s %6.1fs vars=%s clauses=%s %s\n" % (
@@ -129,7 +143,11 @@ def run_plan(res, queries, workers=8, mem_budget_gb=56, logdir=None):
     for t in threads:
         t.join()
     for r in results:
-        handle_result(res, r)
+        if not r.get("_handled"):
+            if stop["flag"] and r.get("status") == "inconclusive":
+                res.notrun.append(r["harness"] + " (stopped after a confirmed violation)")
+                continue
+            handle_result(res, r)
     return results
 
 
